@@ -268,3 +268,9 @@ Section ElemSpec.
       destruct (matches r (enc x)); auto.
   Qed.
 End ElemSpec.
+
+(* non-vacuity of the side conditions of pm_last_selector_spec *)
+Example last_selector_conditions :
+  split_index_name_value ("[" ++ "name" ++ "=" ++ "x" ++ "]") = Some ("name", "x") /\
+  classify_pm ("[" ++ "name" ++ "=" ++ "x" ++ "]") = PPSel ("[" ++ "name" ++ "=" ++ "x" ++ "]").
+Proof. split; reflexivity. Qed.
